@@ -202,8 +202,20 @@ Definition registered (t : task) : bool :=
 
 Definition done (t : task) : bool := match t_pc t with PDone _ => true | _ => false end.
 
-Definition count_registered (s : st) (k : nat) : nat :=
-  length (filter (fun t => (t_key t =? k) && registered t) (s_tasks s)).
+(* the tasks of key k that have executed `refs[k] += 1` and not yet `refs[k] -= 1` *)
+Definition registered_ids (s : st) (k : nat) : list nat :=
+  filter (fun j => (t_key (get s j) =? k) && registered (get s j)) (seq 0 (length (s_tasks s))).
+
+Definition all_done (s : st) : bool := forallb done (s_tasks s).
+
+(* choices that do something (other than cancelling) in state s *)
+Definition enabled (s : st) (c : choice) : bool :=
+  match c with
+  | CRun i => (i <? length (s_tasks s)) && ready (get s i)
+  | COpen i => (i <? length (s_tasks s)) &&
+               match t_pc (get s i) with PInCS => is_pending (t_fut (get s i)) | _ => false end
+  | CCancel _ => false
+  end.
 
 (* ---------- canonical encoding for the correspondence suite (harness/suites/keyedlock.py) ---------- *)
 Local Open Scope Z_scope.
